@@ -14,13 +14,19 @@
          event carries an internal transaction with a positive receipt),
        - no_cross_fork st1 st2: the two nodes do not hold different events of one creator at one
          index (each node is fork free by C07; the abstract quorum argument needs |G j| <= n).
-   The full block-level statement is kept as a Definition and is what the check's oracle evaluates
-   on every history, after every action. *)
+   (3) Stage B (Proofs/Undetermined, Committed, FrameFn, FrameInv, BlockShape, BlockAgree): the full
+       block-level statement for static membership, C01_agreement / C01_agreement_prefix /
+       C01_frames_agree, with the premises ids_determine, sigkeys_determine (distinct signature R
+       values: the tie-break of the consensus order; C01_agreement_needs_distinct_signatures shows
+       it cannot be dropped), no_accept, fork_free.  Dynamic membership (accepted internal
+       transactions) is not covered by the proofs; the check's oracle evaluates the statement on
+       every history, after every action. *)
 From Coq Require Import ZArith List Bool Permutation.
 From V Require Import Model.ZMap Model.Quorum Model.Voting Model.VotingRef Model.HgImpl
   Proofs.VotingProofs Proofs.VotingTheorems Proofs.FameBridge Proofs.AdmissionProofs Proofs.BlockInv
   Proofs.OrderProofs Proofs.Static Proofs.FirstDesc Proofs.CInvRun Proofs.SameHistory Proofs.Agreement
-  Proofs.NoFail Proofs.AgreementU Proofs.FameInv Proofs.FamousSet Proofs.DecidedFlag Proofs.RoundReceived.
+  Proofs.NoFail Proofs.AgreementU Proofs.FameInv Proofs.FamousSet Proofs.DecidedFlag Proofs.RoundReceived
+  Proofs.BlockAgree Proofs.AgreementWitness.
 Import ListNotations.
 Open Scope Z_scope.
 
@@ -268,18 +274,98 @@ Example C01_example :
   = repeat (Some (Some true), Some (Some true)) 12.
 Proof. vm_compute. split; reflexivity. Qed.
 
-(* FULL STATEMENT (not yet proved): two nodes fed downward-closed parts of one fork-free DAG, in
-   any topological orders, deliver prefix-consistent block sequences *)
-Definition topological (evs : list event) : Prop :=
-  forall i e, nth_error evs i = Some e ->
-    (e_sp e = -1 \/ exists j p, (j < i)%nat /\ nth_error evs j = Some p /\ e_id p = e_sp e) /\
-    (e_op e = -1 \/ exists j p, (j < i)%nat /\ nth_error evs j = Some p /\ e_id p = e_op e).
-Definition C01_agreement_statement : Prop :=
-  forall genesis (evs1 evs2 : list event),
-    (forall e1 e2, In e1 (evs1 ++ evs2) -> In e2 (evs1 ++ evs2) -> e_id e1 = e_id e2 -> e1 = e2) ->
-    topological evs1 -> topological evs2 ->
-    Forall (fun e => e_sigok e = true) (evs1 ++ evs2) ->
-    forall k d1 d2,
-      nth_error (delivered (run (init_hg 0 genesis []) evs1)) k = Some d1 ->
-      nth_error (delivered (run (init_hg 1 genesis []) evs2)) k = Some d2 ->
-      body d1 = body d2.
+(** The block-level statement, static membership *)
+
+(* AGREEMENT ON THE FRAMES: two nodes that were offered events of one fork-free universe (any
+   events, in any order, valid or not, interleaved with ProcessSigPool calls) have THE SAME cached
+   frame for every round for which both have one (= every round both have processed): round,
+   peers, roots (per creator, with ROOT_DEPTH events below the head), events with their round /
+   Lamport timestamp / witness flag in consensus order, peer-set table, median timestamp.
+   Premises: ids_determine (hash collision freedom), sigkeys_determine (no two attempted events
+   carry the same signature R value: the tie-break of the consensus order, see
+   C01_agreement_needs_distinct_signatures), no_accept (static membership), fork_free. *)
+Theorem C01_frames_agree : forall genesis all self1 self2 oracle1 oracle2 ops1 ops2 R f1 f2,
+  ids_determine all -> sigkeys_determine all -> no_accept all -> fork_free all ->
+  Forall (hop_ok all) ops1 -> Forall (hop_ok all) ops2 ->
+  let st1 := hrun (init_hg self1 genesis oracle1) ops1 in
+  let st2 := hrun (init_hg self2 genesis oracle2) ops2 in
+  zget R (frames st1) = Some f1 -> zget R (frames st2) = Some f2 -> f1 = f2.
+Proof.
+  exact (fun g all s1 s2 o1 o2 ops1 ops2 R f1 f2 ID SK NA FF H1 H2 =>
+           frames_agree g all ID SK NA FF s1 s2 o1 o2 ops1 ops2 H1 H2 R f1 f2).
+Qed.
+Print Assumptions C01_frames_agree.
+
+(* AGREEMENT ON THE BLOCKS: the k-th delivered blocks of the two nodes are equal in index,
+   round-received, timestamp, transactions, internal transactions, frame (stands for FrameHash:
+   the whole frame as above) and peers (PeersHash).  NOT claimed equal: b_sigs (each node collects
+   signatures at its own pace), b_bodyid (the body hash after the application filled in its
+   state hash: environment), b_committed / b_receipts (set by the node's own commit callback; with
+   no_accept the receipts of a committed block are (id, false) for each internal transaction). *)
+Theorem C01_agreement : forall genesis all self1 self2 oracle1 oracle2 ops1 ops2 k d1 d2,
+  ids_determine all -> sigkeys_determine all -> no_accept all -> fork_free all ->
+  Forall (hop_ok all) ops1 -> Forall (hop_ok all) ops2 ->
+  let st1 := hrun (init_hg self1 genesis oracle1) ops1 in
+  let st2 := hrun (init_hg self2 genesis oracle2) ops2 in
+  nth_error (delivered st1) k = Some d1 -> nth_error (delivered st2) k = Some d2 ->
+  (b_index d1, b_rr d1, b_ts d1, b_txs d1, b_itxs d1, b_frame d1, b_peers d1) =
+  (b_index d2, b_rr d2, b_ts d2, b_txs d2, b_itxs d2, b_frame d2, b_peers d2).
+Proof.
+  exact (fun g all s1 s2 o1 o2 ops1 ops2 k d1 d2 ID SK NA FF H1 H2 =>
+           blocks_agree g all ID SK NA FF s1 s2 o1 o2 ops1 ops2 k d1 d2 H1 H2).
+Qed.
+Print Assumptions C01_agreement.
+
+(* ... hence the shorter delivered sequence is a prefix of the longer one
+   ([cbody d], Proofs/BlockAgree.v, is the 7-tuple of C01_agreement) *)
+Theorem C01_agreement_prefix : forall genesis all self1 self2 oracle1 oracle2 ops1 ops2,
+  ids_determine all -> sigkeys_determine all -> no_accept all -> fork_free all ->
+  Forall (hop_ok all) ops1 -> Forall (hop_ok all) ops2 ->
+  let st1 := hrun (init_hg self1 genesis oracle1) ops1 in
+  let st2 := hrun (init_hg self2 genesis oracle2) ops2 in
+  (length (delivered st1) <= length (delivered st2))%nat ->
+  map cbody (delivered st1) = firstn (length (delivered st1)) (map cbody (delivered st2)).
+Proof.
+  exact (fun g all s1 s2 o1 o2 ops1 ops2 ID SK NA FF H1 H2 =>
+           blocks_prefix g all ID SK NA FF s1 s2 o1 o2 ops1 ops2 H1 H2).
+Qed.
+Print Assumptions C01_agreement_prefix.
+
+(* a block of one node is delivered by the other as soon as the other has processed its round *)
+Theorem C01_block_transfer : forall genesis all self1 self2 oracle1 oracle2 ops1 ops2 d1,
+  ids_determine all -> sigkeys_determine all -> no_accept all -> fork_free all ->
+  Forall (hop_ok all) ops1 -> Forall (hop_ok all) ops2 ->
+  let st1 := hrun (init_hg self1 genesis oracle1) ops1 in
+  let st2 := hrun (init_hg self2 genesis oracle2) ops2 in
+  In d1 (delivered st1) -> (exists l, last_consensus st2 = Some l /\ b_rr d1 <= l) ->
+  exists d2, In d2 (delivered st2) /\ b_rr d2 = b_rr d1 /\ b_frame d2 = b_frame d1.
+Proof.
+  exact (fun g all s1 s2 o1 o2 ops1 ops2 d1 ID SK NA FF H1 H2 =>
+           block_transfer g all ID SK NA FF s1 s2 o1 o2 ops1 ops2 d1 H1 H2).
+Qed.
+Print Assumptions C01_block_transfer.
+
+(* REFUTED without the premise on signature keys: two parentless events with the same Lamport
+   timestamp and the same signature key are committed in the order in which each node received
+   them (Proofs/AgreementWitness.v: first blocks [0;1;2] and [1;0;2]).  In babble the key is the R
+   component of the ECDSA signature; two honest signatures with equal R are a nonce reuse. *)
+Definition C01_agreement_without_sigkeys_statement : Prop :=
+  forall genesis all self1 self2 oracle1 oracle2 ops1 ops2 k d1 d2,
+    ids_determine all -> no_accept all -> fork_free all ->
+    Forall (hop_ok all) ops1 -> Forall (hop_ok all) ops2 ->
+    let st1 := hrun (init_hg self1 genesis oracle1) ops1 in
+    let st2 := hrun (init_hg self2 genesis oracle2) ops2 in
+    nth_error (delivered st1) k = Some d1 -> nth_error (delivered st2) k = Some d2 -> b_txs d1 = b_txs d2.
+Theorem C01_agreement_needs_distinct_signatures : ~ C01_agreement_without_sigkeys_statement.
+Proof. exact tw_refuted. Qed.
+Print Assumptions C01_agreement_needs_distinct_signatures.
+
+(* non-vacuity on the two nodes above: node 1 (17 events) has delivered 6 blocks, node 0 (24 events) 9;
+   the six are the first six of the nine *)
+Example C01_example_blocks :
+  sigkeys_determine c01_all /\
+  length (delivered c01_st2) = 6%nat /\ length (delivered c01_st1) = 9%nat /\
+  map cbody (delivered c01_st2) = firstn 6 (map cbody (delivered c01_st1)) /\
+  map (fun d => (b_index d, b_rr d, b_txs d)) (delivered c01_st2) =
+    [(0, 1, [0; 1]); (1, 2, [2; 3]); (2, 3, [4; 5]); (3, 4, [6; 7]); (4, 5, [8; 9]); (5, 6, [10; 11])].
+Proof. split; [apply sigkeys_determine_distinct; vm_compute; reflexivity|]. vm_compute. repeat split; reflexivity. Qed.
